@@ -70,6 +70,11 @@ chk('C08', 'independent TLA+ reference SMF decoder (SmfWire.RefRead) validating 
     'System common events are treated as storable events that cancel running status; byte equality with the canonical writer is not required.',
     'DESIGN.md 5/C08')
 
+chk('C13', 'TLA+ exact-arithmetic model of the tempo map and of the play() scheduler against a virtual clock (Playback), enumerated by TLC over files x consumer-delay patterns; every behaviour replayed on the real MidiFile with a fake clock',
+    'TLC enumerates files of <= 2 tracks x <= 2 events (thorough up to 4 events) with deltas {0,1,3}, set_tempo (1, 250000, 16777215 us/beat) at every position, non-tempo meta messages and end_of_track anywhere, checks that the iteration deltas sum to the tempo-map integral, and for play() all consumer-delay patterns over {0, small, larger than any gap} x meta_messages on/off with NeverEarly and NoDrift; each row is replayed for ticks_per_beat 1 / 480 / 32767: iteration order and times, length, play() yield times and sleep amounts on a virtual clock, compared with exact rationals. Type 2 files must refuse length, iteration and play. tick2second/second2tick inverse: 3 360 (thorough 20 360) grid/random points, driver-level.',
+    'Float results compared with exact rationals within 1e-9 relative; the unit-conversion clause is not decided by the specification (no floats in TLA+).',
+    'DESIGN.md 5/C13')
+
 
 def build(not_applicable):
     checks = []
